@@ -175,7 +175,10 @@ func opEnc(args []string) string {
 	}
 	out, acc := encodeWith(coding.DataCoding(atoi(args[0])), string(rs))
 	if !acc {
-		return "err"
+		return "err" + composeMismatch(coding.DataCoding(atoi(args[0])), string(rs), nil, false)
+	}
+	if m := composeMismatch(coding.DataCoding(atoi(args[0])), string(rs), out, true); m != "" {
+		return "ok " + canon.Hex(out) + m
 	}
 	if back, ok := decodeWith(coding.DataCoding(atoi(args[0])), out); ok && back == string(rs) {
 		if m := parseMismatch(coding.DataCoding(atoi(args[0])), out, string(rs)); m != "" {
@@ -221,7 +224,29 @@ func opMbRT(args []string) string {
 	if m := parseMismatch(c, out, string(rs)); m != "" {
 		return "ok " + canon.Hex(out) + m
 	}
+	if m := composeMismatch(c, string(rs), out, true); m != "" {
+		return "ok " + canon.Hex(out) + m
+	}
 	return "ok " + canon.Hex(out)
+}
+
+// composeMismatch: pdu.ComposeMultipartShortMessage is the library's encoding entry point for a text and a data_coding: for a
+// text that fits one part it must produce exactly the coding's encoder output, and refuse what the encoder refuses.
+func composeMismatch(c coding.DataCoding, text string, octets []byte, accepted bool) string {
+	if c.Splitter() == nil || c.Splitter().Len(text) > pdu.MaxShortMessageLength {
+		return ""
+	}
+	parts, err := pdu.ComposeMultipartShortMessage(text, c, 1)
+	if !accepted {
+		if err == nil {
+			return fmt.Sprintf(" !! C17:compose-accepts-text-the-encoder-rejects coding=%d", c)
+		}
+		return ""
+	}
+	if err != nil || len(parts) != 1 || string(parts[0].Message) != string(octets) {
+		return fmt.Sprintf(" !! C17:compose-octets-differ-from-encoder coding=%d", c)
+	}
+	return ""
 }
 
 // parseMismatch: the library's own decoding entry point for a stored message (pdu.ShortMessage.Parse, which decodes by
@@ -443,6 +468,16 @@ func genC17(r *gen.Rng, tier string, emit func(string)) {
 		}
 		emit(fmt.Sprintf("%s %d 65,66,0", op, dc))
 		emit(fmt.Sprintf("%s %d 0", op, dc))
+	}
+	// texts that are not in Unicode normal form: a codec must take them as they are (reject or encode), never alter them
+	for _, dc := range []int{1, 3, 6, 7, 8} {
+		for _, t := range []string{"8491", "101,769", "894", "8486", "64016", "65,776", "8490,65", "1080,774"} {
+			emit(fmt.Sprintf("enc %d %s", dc, t))
+		}
+	}
+	for _, dc := range []int{5, 13, 14} {
+		emit(fmt.Sprintf("mbrt %d 64016", dc))
+		emit(fmt.Sprintf("mbrt %d 12459,12441", dc))
 	}
 	emit("enc 8 65,256")
 	emit("enc 8 12288")
